@@ -59,6 +59,7 @@ template<class R> Mat<typename R::S,2,1> cc(R& rec,int k){ Mat<typename R::S,2,1
 template<class R> Mat<typename R::S,3,1> cv(R& rec,int k){ Mat<typename R::S,3,1> v; for(int i=0;i<3;i++) v(i)=rec.rat(KV[k][i],4); return v; }
 template<class R> Mat<typename R::S,3,1> cw(R& rec,int k){ Mat<typename R::S,3,1> v; for(int i=0;i<3;i++) v(i)=rec.rat(KW[k][i],10); return v; }
 struct SO2t { template<class S> using G=manif::SO2<S>; template<class S> using T=manif::SO2Tangent<S>; template<class R> static G<typename R::S> makec(R& rec,int k){ typedef typename R::S S; auto c=cc(rec,k); return G<S>(c(0),c(1)); }
+  template<class R> static T<typename R::S> maket0(R& rec,const std::string& p,int w){ typedef typename R::S S; return T<S>(S(0.0)); }
   template<class R> static T<typename R::S> maketc(R& rec,int k){ typedef typename R::S S; return T<S>(rec.rat(KW[k][0],10)); }
   template<class S,class GA,class GB,class MM> static G<S> assemble(const GA& A,const GB& B,const MM& Mp){ S re=A.coeffs()(0)*B.coeffs()(0)-A.coeffs()(1)*B.coeffs()(1), im=A.coeffs()(0)*B.coeffs()(1)+A.coeffs()(1)*B.coeffs()(0); return G<S>(re,im); }
   template<class J,class GJ,class TJ,class MM> static GJ fromM(const GJ& X,const TJ& d,const MM& Mp){ J re=X.coeffs()(0)-X.coeffs()(1)*d.coeffs()(0), im=X.coeffs()(1)+X.coeffs()(0)*d.coeffs()(0); return GJ(re,im); }
@@ -72,6 +73,7 @@ struct SO2t { template<class S> using G=manif::SO2<S>; template<class S> using T
   static int nrot(){return 1;} // rotation-part kind: 1 complex, 2 quaternion, 0 none
 };
 struct SE2t { template<class S> using G=manif::SE2<S>; template<class S> using T=manif::SE2Tangent<S>; template<class R> static G<typename R::S> makec(R& rec,int k){ typedef typename R::S S; auto c=cc(rec,k); auto v=cv(rec,k); return G<S>(v(0),v(1),c(0),c(1)); }
+  template<class R> static T<typename R::S> maket0(R& rec,const std::string& p,int w){ typedef typename R::S S; return T<S>(rec.var(p+"x",WV[w][0]),rec.var(p+"y",WV[w][1]),S(0.0)); }
   template<class R> static T<typename R::S> maketc(R& rec,int k){ typedef typename R::S S; auto v=cv(rec,k); return T<S>(v(0),v(1),rec.rat(KW[k][0],10)); }
   template<class S,class GA,class GB,class MM> static G<S> assemble(const GA& A,const GB& B,const MM& Mp){ S re=A.coeffs()(2)*B.coeffs()(2)-A.coeffs()(3)*B.coeffs()(3), im=A.coeffs()(2)*B.coeffs()(3)+A.coeffs()(3)*B.coeffs()(2); return G<S>(Mp(0,2),Mp(1,2),re,im); }
   template<class J,class GJ,class TJ,class MM> static GJ fromM(const GJ& X,const TJ& d,const MM& Mp){ J re=X.coeffs()(2)-X.coeffs()(3)*d.coeffs()(2), im=X.coeffs()(3)+X.coeffs()(2)*d.coeffs()(2); return GJ(Mp(0,2),Mp(1,2),re,im); }
@@ -84,6 +86,7 @@ struct SE2t { template<class S> using G=manif::SE2<S>; template<class S> using T
   template<class S> static Mat<S,H,1> hom(const Mat<S,P,1>& p){ Mat<S,H,1> h; h<<p(0),p(1),S(1.0); return h; }
 };
 struct SO3t { template<class S> using G=manif::SO3<S>; template<class S> using T=manif::SO3Tangent<S>; template<class R> static G<typename R::S> makec(R& rec,int k){ typedef typename R::S S; Mat<S,4,1> q=cq(rec,k); return G<S>(q); }
+  template<class R> static T<typename R::S> maket0(R& rec,const std::string& p,int w){ typedef typename R::S S; Mat<S,3,1> v=Mat<S,3,1>::Zero(); return T<S>(v); }
   template<class R> static T<typename R::S> maketc(R& rec,int k){ typedef typename R::S S; Mat<S,3,1> w=cw(rec,k); return T<S>(w); }
   template<class S,class GA,class GB,class MM> static G<S> assemble(const GA& A,const GB& B,const MM& Mp){ Mat<S,4,1> qa=A.coeffs(), qb=B.coeffs(); Mat<S,4,1> c=qmul<S>(qa,qb); return G<S>(c); }
   template<class J,class GJ,class TJ,class MM> static GJ fromM(const GJ& X,const TJ& d,const MM& Mp){ Mat<J,4,1> q=X.coeffs(); Mat<J,3,1> w=d.coeffs(); Mat<J,4,1> c=qpert<J>(q,w); return GJ(c); }
@@ -96,6 +99,7 @@ struct SO3t { template<class S> using G=manif::SO3<S>; template<class S> using T
   template<class S> static Mat<S,H,1> hom(const Mat<S,P,1>& p){ Mat<S,H,1> h; h<<p(0),p(1),p(2),S(1.0); return h; }
 };
 struct SE3t { template<class S> using G=manif::SE3<S>; template<class S> using T=manif::SE3Tangent<S>; template<class R> static G<typename R::S> makec(R& rec,int k){ typedef typename R::S S; Mat<S,7,1> c; c.template head<3>()=cv(rec,k); c.template tail<4>()=cq(rec,k); return G<S>(c); }
+  template<class R> static T<typename R::S> maket0(R& rec,const std::string& p,int w){ typedef typename R::S S; Mat<S,6,1> c=Mat<S,6,1>::Zero(); c.template head<3>()=vec3(rec,p+"v",WV[w]); return T<S>(c); }
   template<class R> static T<typename R::S> maketc(R& rec,int k){ typedef typename R::S S; Mat<S,6,1> c; c.template head<3>()=cv(rec,k); c.template tail<3>()=cw(rec,k); return T<S>(c); }
   template<class S,class GA,class GB,class MM> static G<S> assemble(const GA& A,const GB& B,const MM& Mp){ Mat<S,4,1> qa=A.coeffs().template segment<4>(3), qb=B.coeffs().template segment<4>(3); Mat<S,7,1> c; c.template head<3>()=Mp.template block<3,1>(0,3); c.template tail<4>()=qmul<S>(qa,qb); return G<S>(c); }
   template<class J,class GJ,class TJ,class MM> static GJ fromM(const GJ& X,const TJ& d,const MM& Mp){ Mat<J,4,1> q=X.coeffs().template segment<4>(3); Mat<J,3,1> w=d.coeffs().template tail<3>(); Mat<J,7,1> c; c.template head<3>()=Mp.template block<3,1>(0,3); c.template tail<4>()=qpert<J>(q,w); return GJ(c); }
@@ -108,6 +112,7 @@ struct SE3t { template<class S> using G=manif::SE3<S>; template<class S> using T
   template<class S> static Mat<S,H,1> hom(const Mat<S,P,1>& p){ Mat<S,H,1> h; h<<p(0),p(1),p(2),S(1.0); return h; }
 };
 struct SE23t { template<class S> using G=manif::SE_2_3<S>; template<class S> using T=manif::SE_2_3Tangent<S>; template<class R> static G<typename R::S> makec(R& rec,int k){ typedef typename R::S S; Mat<S,10,1> c; c.template head<3>()=cv(rec,k); c.template segment<4>(3)=cq(rec,k); c.template tail<3>()=cv(rec,(k+1)%4); return G<S>(c); }
+  template<class R> static T<typename R::S> maket0(R& rec,const std::string& p,int w){ typedef typename R::S S; Mat<S,9,1> c=Mat<S,9,1>::Zero(); c.template head<3>()=vec3(rec,p+"v",WV[w]); c.template tail<3>()=vec3(rec,p+"a",WV[(w+2)%4]); return T<S>(c); }
   template<class R> static T<typename R::S> maketc(R& rec,int k){ typedef typename R::S S; Mat<S,9,1> c; c.template head<3>()=cv(rec,k); c.template segment<3>(3)=cw(rec,k); c.template tail<3>()=cv(rec,(k+2)%4); return T<S>(c); }
   template<class S,class GA,class GB,class MM> static G<S> assemble(const GA& A,const GB& B,const MM& Mp){ Mat<S,4,1> qa=A.coeffs().template segment<4>(3), qb=B.coeffs().template segment<4>(3); Mat<S,10,1> c; c.template head<3>()=Mp.template block<3,1>(0,3); c.template segment<4>(3)=qmul<S>(qa,qb); c.template tail<3>()=Mp.template block<3,1>(0,4); return G<S>(c); }
   template<class J,class GJ,class TJ,class MM> static GJ fromM(const GJ& X,const TJ& d,const MM& Mp){ Mat<J,4,1> q=X.coeffs().template segment<4>(3); Mat<J,3,1> w=d.coeffs().template segment<3>(3); Mat<J,10,1> c; c.template head<3>()=Mp.template block<3,1>(0,3); c.template segment<4>(3)=qpert<J>(q,w); c.template tail<3>()=Mp.template block<3,1>(0,4); return GJ(c); }
@@ -120,6 +125,7 @@ struct SE23t { template<class S> using G=manif::SE_2_3<S>; template<class S> usi
   template<class S> static Mat<S,H,1> hom(const Mat<S,P,1>& p){ Mat<S,H,1> h; h<<p(0),p(1),p(2),S(1.0),S(0.0); return h; }
 };
 struct SGal3t { template<class S> using G=manif::SGal3<S>; template<class S> using T=manif::SGal3Tangent<S>; template<class R> static G<typename R::S> makec(R& rec,int k){ typedef typename R::S S; Mat<S,11,1> c; c.template head<3>()=cv(rec,k); c.template segment<4>(3)=cq(rec,k); c.template segment<3>(7)=cv(rec,(k+1)%4); c(10)=rec.rat(3+2*k,4); return G<S>(c); }
+  template<class R> static T<typename R::S> maket0(R& rec,const std::string& p,int w){ typedef typename R::S S; Mat<S,10,1> c=Mat<S,10,1>::Zero(); c.template head<3>()=vec3(rec,p+"p",WV[w]); c.template segment<3>(3)=vec3(rec,p+"v",WV[(w+2)%4]); c(9)=rec.var(p+"s",0.7-0.3*w); return T<S>(c); }
   template<class R> static T<typename R::S> maketc(R& rec,int k){ typedef typename R::S S; Mat<S,10,1> c; c.template head<3>()=cv(rec,k); c.template segment<3>(3)=cv(rec,(k+2)%4); c.template segment<3>(6)=cw(rec,k); c(9)=rec.rat(3-k,4); return T<S>(c); }
   template<class S,class GA,class GB,class MM> static G<S> assemble(const GA& A,const GB& B,const MM& Mp){ Mat<S,4,1> qa=A.coeffs().template segment<4>(3), qb=B.coeffs().template segment<4>(3); Mat<S,11,1> c; c.template head<3>()=Mp.template block<3,1>(0,4); c.template segment<4>(3)=qmul<S>(qa,qb); c.template segment<3>(7)=Mp.template block<3,1>(0,3); c(10)=Mp(3,4); return G<S>(c); }
   template<class J,class GJ,class TJ,class MM> static GJ fromM(const GJ& X,const TJ& d,const MM& Mp){ Mat<J,4,1> q=X.coeffs().template segment<4>(3); Mat<J,3,1> w=d.coeffs().template segment<3>(6); Mat<J,11,1> c; c.template head<3>()=Mp.template block<3,1>(0,4); c.template segment<4>(3)=qpert<J>(q,w); c.template segment<3>(7)=Mp.template block<3,1>(0,3); c(10)=Mp(3,4); return GJ(c); }
@@ -132,6 +138,7 @@ struct SGal3t { template<class S> using G=manif::SGal3<S>; template<class S> usi
   template<class S> static Mat<S,H,1> hom(const Mat<S,P,1>& p){ Mat<S,H,1> h; h<<p(0),p(1),p(2),S(0.0),S(1.0); return h; }
 };
 template<int N> struct Rnt { template<class S> using G=manif::Rn<S,N>; template<class S> using T=manif::RnTangent<S,N>; template<class R> static G<typename R::S> makec(R& rec,int k){ typedef typename R::S S; Mat<S,N,1> c; for(int i=0;i<N;i++) c(i)=rec.rat(KV[k][i%3]+i,4); return G<S>(c); }
+  template<class R> static T<typename R::S> maket0(R& rec,const std::string& p,int w){ return maket(rec,p,w); }
   template<class R> static T<typename R::S> maketc(R& rec,int k){ typedef typename R::S S; Mat<S,N,1> c; for(int i=0;i<N;i++) c(i)=rec.rat(KW[k][i%3]-i,10); return T<S>(c); }
   template<class S,class GA,class GB,class MM> static G<S> assemble(const GA& A,const GB& B,const MM& Mp){ Mat<S,N,1> c; for(int i=0;i<N;i++) c(i)=Mp(i,N); return G<S>(c); }
   template<class J,class GJ,class TJ,class MM> static GJ fromM(const GJ& X,const TJ& d,const MM& Mp){ Mat<J,N,1> c; for(int i=0;i<N;i++) c(i)=Mp(i,N); return GJ(c); }
@@ -157,3 +164,8 @@ template<class Tg,class S,class GA,class GB> typename Tg::template G<S> hcompose
 template<class Tg,class R,class T> void assume_rot_below_pi(R& rec, const T& t){ typedef typename R::S S; S r=Tg::template rotsq<S>(t); if(!(Tg::DoF==Tg::P && Tg::H==Tg::P+1 && Tg::Rep==Tg::P)) rec.assume(r, 0, S(9.869604)); } // 9.869604 < pi^2
 template<class Tg,class R,class T> void assume_rot_positive(R& rec, const T& t){ typedef typename R::S S; S r=Tg::template rotsq<S>(t); if(!(Tg::DoF==Tg::P && Tg::H==Tg::P+1 && Tg::Rep==Tg::P)) rec.assume(S(0.0), 0, r); }
 } // namespace gx
+#ifdef ZERO_ROT
+#define MAKET(Tg,R,p,w) Tg::maket0(R,p,w)
+#else
+#define MAKET(Tg,R,p,w) Tg::maket(R,p,w)
+#endif
